@@ -78,6 +78,9 @@ def check(model: Model, run: Run) -> None:
                        "incoming messages by (class, id in search set, id in outstanding set)")
     common_coverage(ex, run)
     id_codec_symmetry(model, run)
+    # a response for an unknown or completed id is refused with ProtocolError - provided building the refusal cannot itself fail
+    from .c10 import refusal_text_is_total
+    refusal_text_is_total(model, run, ex, "N6-refusal-is-raised-as-written")
     # ---- counter discipline ------------------------------------------------
     ws = counter_writers(model)
     run.floor("counter writers", len(ws), 2)
